@@ -476,11 +476,13 @@ struct HistCase
   }
 };
 
-static Call genCall(bool noise)
+static Call genCall(bool noise, int forcedKind = -1)
 {
   Call c;
-  if (!noise)
-    c.kind = G::pick<int>({K_COV, K_COV, K_COV, K_KRIG, K_KRIG, K_XVALID, K_SIMTUB, K_SIMTUB, K_VARIO, K_MIGRATE, K_STATS, K_BOX, K_SELECT, K_SAMPLE});
+  if (forcedKind >= 0)
+    c.kind = forcedKind;
+  else if (!noise)
+    c.kind = G::pick<int>({K_COV, K_COV, K_COV, K_KRIG, K_KRIG, K_XVALID, K_SIMTUB, K_SIMTUB, K_VARIO, K_MIGRATE, K_STATS, K_BOX, K_SELECT, K_SELECT, K_SAMPLE});
   else
     c.kind = G::pick<int>({K_COV, K_COV, K_KRIG, K_XVALID, K_SIMTUB, K_VARIO, K_MIGRATE, K_STATS, K_BOX, K_SELECT, K_SAMPLE, K_FAILCOV, K_FAILCOV,
                            K_FAILCOV, K_FAILKRIG, K_FAILKRIG, K_FAILMISC, K_LAW, K_LAW, K_GLOBAL, K_GLOBAL, K_CREATE, K_CONST, K_NEIGHMUT});
@@ -490,17 +492,44 @@ static Call genCall(bool noise)
   c.d = G::i(0, 11);
   c.e = G::i(0, 11);
   c.seed = G::seed();
-  if (G::pct(40))
+  bool sel = (c.kind == K_SELECT || c.kind == K_NEIGHMUT);
+  if (G::pct(40) || sel)
   {
-    int n = G::i(1, 5);
-    for (int k = 0; k < n; k++) c.i1.push_back(G::i(0, 999));
+    int n = G::i(1, sel ? 3 : 5);
+    for (int k = 0; k < n; k++) c.i1.push_back(sel ? G::i(0, 5) : G::i(0, 999));
   }
   if (G::pct(30))
   {
     int n = G::i(1, 5);
     for (int k = 0; k < n; k++) c.i2.push_back(G::i(0, 999));
   }
-  if (c.kind == K_SELECT && c.i1.empty()) c.i1.push_back(G::i(0, 999));
+  return c;
+}
+// a noise call that touches what the observed call depends on (same model cache, same neighbourhood memo, the random generator...)
+static Call genRelatedNoise(const Call& obs)
+{
+  int k;
+  switch (obs.kind)
+  {
+    case K_COV: k = G::pick<int>({K_COV, K_COV, K_COV, K_FAILCOV, K_FAILCOV, K_KRIG, K_GLOBAL}); break;
+    case K_KRIG:
+    case K_XVALID: k = G::pick<int>({K_COV, K_FAILCOV, K_FAILKRIG, K_SELECT, K_NEIGHMUT, K_KRIG, K_XVALID, K_SIMTUB, K_GLOBAL}); break;
+    case K_SIMTUB: k = G::pick<int>({K_LAW, K_LAW, K_BOX, K_SAMPLE, K_SIMTUB, K_CREATE, K_SELECT, K_FAILKRIG, K_GLOBAL}); break;
+    case K_BOX:
+    case K_SAMPLE: k = G::pick<int>({K_LAW, K_LAW, K_BOX, K_SAMPLE, K_SIMTUB, K_CREATE, K_GLOBAL}); break;
+    case K_SELECT: k = G::pick<int>({K_SELECT, K_SELECT, K_SELECT, K_KRIG, K_XVALID, K_SIMTUB, K_NEIGHMUT, K_NEIGHMUT, K_FAILKRIG, K_GLOBAL}); break;
+    default: k = G::pick<int>({obs.kind, obs.kind, K_FAILMISC, K_CONST, K_GLOBAL}); break;
+  }
+  Call c = genCall(true, k);
+  if (k == K_COV || k == K_FAILCOV)
+  {
+    c.a = G::pick<int>({0, 1, 1, 3, 3, 2}); // mostly the accelerated variants
+    c.e &= ~4;                              // the model of the observed call
+    c.d &= ~1;
+  }
+  if (k == K_GLOBAL) c.b = obs.kind; // the nested call has the kind of the observed one
+  if ((k == K_SELECT || k == K_NEIGHMUT) && G::pct(50)) c.i1 = obs.i1;
+  if (k == obs.kind && G::pct(30)) { c.a = obs.a; c.b = obs.b; }
   return c;
 }
 static HistCase genHist()
@@ -522,7 +551,7 @@ static HistCase genHist()
   c.vp = genVarioSpec(c.ndim);
   c.obs = genCall(false);
   int nn = G::sz(1, 6);
-  for (int k = 0; k < nn; k++) c.noise.push_back(genCall(true));
+  for (int k = 0; k < nn; k++) c.noise.push_back(G::pct(50) ? genRelatedNoise(c.obs) : genCall(true));
   return c;
 }
 
@@ -1165,6 +1194,7 @@ template<class F> static std::string findCulprit(const HistCase& c, F differs)
   for (auto& cand : c.noise)
   {
     ChildResult S = runChild(c, {cand});
+    if (!S.complete && WIFSIGNALED(S.wstatus) && WTERMSIG(S.wstatus) == SIGALRM) continue;
     if (!differs(S)) continue;
     std::string tag = S.tags.count(0) ? S.tags[0] : std::string();
     if (cand.kind == K_GLOBAL && (cand.a & 7) != 5)
@@ -1190,13 +1220,17 @@ static void runHist(const HistCase& c, Ctx& ctx)
     if (isFailingKind(n.kind) || isSharedKind(n.kind)) nt = true;
   }
 
+  // wall-clock caps never produce a violation (DESIGN 7): a child stopped by its alarm makes the case inconclusive
+  auto timedOut = [](const ChildResult& r) { return !r.complete && WIFSIGNALED(r.wstatus) && WTERMSIG(r.wstatus) == SIGALRM; };
   ChildResult A = runChild(c, {});
+  if (timedOut(A)) { ctx.inconclusive("child-timeout"); return; }
   if (!A.complete)
   {
     ctx.fail("fresh-crash:" + obs, fmt("the observed call alone does not complete in a fresh process (wait status 0x%x)", A.wstatus));
     return;
   }
   ChildResult B = runChild(c, c.noise);
+  if (timedOut(B)) { ctx.inconclusive("child-timeout"); return; }
   if (!B.complete)
   {
     if (B.reachedObs)
@@ -2583,6 +2617,7 @@ static void runCopy(const CopyCase& c, Ctx& ctx)
       return;
     }
   }
+  if (WIFSIGNALED(st) && WTERMSIG(st) == SIGALRM) { ctx.inconclusive("child-timeout"); return; }
   ctx.fail(std::string("copy:") + ckName(c.kind) + ":" + hows[c.how] + ":crash-after-" + stage,
            fmt("the process dies after stage '%s' (mutated side: %s, destroyed first: %s; wait status 0x%x)", stage.c_str(), c.mutSide ? "copy" : "source",
                c.destroyFirst ? "copy" : "source", st));
